@@ -27,8 +27,8 @@ def failing_branch_appends(fn, lhs, rhs_contains, listname_contains=None):
     return None
 
 
-def run(ctx):
-    chk = Check('C12', ctx)
+def run(ctx, host=None):
+    chk = host.sub('C12') if host is not None else Check('C12', ctx)
     prog = ctx.prog
     R1 = chk.rule('C12.R1', 'every listed loose object is rehashed with the configured algorithm and compared with its name', 2)
     R2 = chk.rule('C12.R2', 'every pack referenced by the index is visited; per row: digest of the decoded stream, size and overlap are compared, each failing branch records the key', 7)
